@@ -64,7 +64,7 @@ def check_c03(tier, replay=None):
         rep.add_tlc('StoneTok/edits-simulate', agg, {'MaxEdits': 3, 'num': 16 * 1250})
         rep.add_judged(agg)
     from checks_sem import lit_stage
-    lit_stage(rep, 'C03', ('exlit', 'attr') if tier == 'quick' else ('exlit', 'attr', 'docref'))
+    lit_stage(rep, 'C03', ('exlit', 'attr', 'annot') if tier == 'quick' else ('exlit', 'attr', 'docref', 'annot'))
     rep.exhaustive = True
     rep.coverage_extra['rule'] = ('every sequence of <= %d physical lines over a 33-letter line alphabet (indent 0/2/4/8 x plain/open/'
                                   'close/open-close/nested-open/trailing-comment/whitespace-only/comment + blank), each tokenised by the real Lexer (skeleton and '
